@@ -117,7 +117,9 @@ TEXT["C01"] = dict(
                "after every operation returned values, iterator ranks and the complete forward/reverse "
                "iteration are compared. Node capacities from 4 up (leaf and inner chosen independently, "
                "asymmetric and odd), both in-node search strategies, three key orders incl. a stateful one, "
-               "three key types. Coverage of splits/merges/root growth per configuration is measured. "
+               "three key types. A third of the histories start from a sequentially built, minimally filled tree of several "
+               "inner levels and shrink it first; every erase(iterator) is followed by lower_bound/upper_bound/find of the "
+               "erased key. Coverage of splits/merges/root growth per configuration is measured. "
                "Exploration: held on the histories generated.",
     level_note="trusts libstdc++'s ordered containers; equal-key order is left free as the property says")
 TEXT["C02"] = dict(
@@ -245,7 +247,8 @@ TEXT["C12"] = dict(
                "unifying handles, including all aliasing shapes (self-assignment, assignment between two handles of one "
                "object, moving from an alias, a second handle made from a raw pointer). After each step the expected "
                "target of every handle, the reference count of every referenced object and the exact set of live "
-               "objects are compared with what the real handles report; a registry keyed by address plus ASan catch "
+               "objects are compared with what the real handles report; list histories keep handles inside managed nodes and "
+               "walk them through same-type and converting (handle-to-const) assignment; a registry keyed by address plus ASan catch "
                "double and missing destruction. Concurrent histories run under thousands of controlled schedules in "
                "which each atomic counter operation can be interleaved, and on real threads under TSan/ASan. "
                "Exploration: held on the histories and schedules generated.",
